@@ -24,8 +24,8 @@ theorem getWordCodeAddressA_word (x : CtxA) (h : x.codeSegSize = 1) (a : Int) :
 theorem relDistA_word (x : CtxA) (h : x.codeSegSize = 1) (a : Int) : relDistA x a = relDist x.toCtx a := by
   unfold relDistA relDist
   rw [getWordCodeAddressA_word x h]
-  unfold getNextCodeAddressA getNextCodeAddress cutAdrA cutAdr
-  rw [h, segLimitCodeA_one]
+  unfold getNextCodeAddressA getNextCodeAddress cutAdrA
+  rw [h]
   simp
 
 theorem dispatchA_word (x : CtxA) (h : x.codeSegSize = 1) (hd : Handler) (args : List Int) :
